@@ -13,10 +13,10 @@ def s(x):
     return '{' + ', '.join(x) + '}'
 
 
-def cfg(name, graphs, T, qe, qn, modes, nes, widths, cuts, maxops, sample, moves, emit, invs, props=(), exh='{}', debugs='{FALSE}'):
+def cfg(name, graphs, T, qe, qn, modes, nes, widths, cuts, maxops, sample, moves, emit, invs, props=(), exh='{}', debugs='{FALSE}', reuse='FALSE'):
     lines = [f'CONSTANTS Graphs = {graphs} T = {T} QE = {qe} QN = {qn} NodeModes = {modes} NEs = {nes}',
              f'  Widths = {widths} Cuts = {cuts} MaxOps = {maxops} SAMPLE = {sample} Moves = {moves} EMIT = {emit}',
-             f'  ExhGraphs = {exh} Debugs = {debugs}', 'SPECIFICATION Spec']
+             f'  ExhGraphs = {exh} Debugs = {debugs} REUSE = {reuse}', 'SPECIFICATION Spec']
     lines += [f'INVARIANT {i}' for i in invs] + [f'PROPERTY {p}' for p in props] + ['CHECK_DEADLOCK FALSE']
     open(os.path.join(D, name + '.cfg'), 'w').write('\n'.join(lines) + '\n')
 
@@ -25,7 +25,7 @@ BOTH, TT, FF = '{TRUE, FALSE}', '{TRUE}', '{FALSE}'
 CUTS = '{"none", "dist", "init", "prob", "both"}'
 Q4, Q3 = '{0, 1, 2, 3}', '{0, 1, 2}'
 # deep random behaviours for `tlc -simulate` (thorough tier): larger graphs, longer traces, longer histories
-cfg('LatticeMC_SIMe', BIGG, 5, Q4, Q3, BOTH, BOTH, '{0, 1, 2}', CUTS, 6, 2, '{"m11", "m10"}', 'TRUE', ['EmitBehaviour'])
+cfg('LatticeMC_SIMe', BIGG, 5, Q4, Q3, BOTH, BOTH, '{0, 1, 2}', CUTS, 6, 2, '{"m11", "m10"}', 'TRUE', ['EmitBehaviour'], reuse='TRUE')
 for th in (False, True):
     sx = '_T' if th else ''
     G = BIGG if th else ALLG
@@ -35,7 +35,7 @@ for th in (False, True):
     # design-level model checking (invariants only)
     cfg('LatticeMC_C01' + sx, G, T, Q4, Q3, BOTH, FF, '{0}', CUTS, 1, 12 * k, '{"m11", "m00"}', 'FALSE', INV['C01'], exh='{"pair"}' if not th else '{"pair", "chain"}')
     cfg('LatticeMC_C02' + sx, G, T, Q4, Q3, BOTH, BOTH, '{0, 1, 2}', CUTS, 3, 1 * k, '{"m11", "m12"}', 'FALSE', INV['C02'])
-    cfg('LatticeMC_C03' + sx, G, T, Q4, Q3, BOTH, BOTH, '{0, 1, 2}', CUTS, 3, 1 * k, '{"m11"}', 'FALSE', INV['C03'])
+    cfg('LatticeMC_C03' + sx, G, T, Q4, Q3, BOTH, BOTH, '{0, 1, 2}', CUTS, 3, 1 * k, '{"m11"}', 'FALSE', INV['C03'] + ['ReuseIsFresh'], reuse='TRUE')
     cfg('LatticeMC_C04' + sx, G, T, Q4, Q3, BOTH, BOTH, '{0, 1, 2}', CUTS, 3, 1 * k, '{"m11"}', 'FALSE', INV['C04'])
     cfg('LatticeMC_C05' + sx, G, T, Q4, Q3, BOTH, BOTH, '{0, 1, 2}', CUTS, 3, 1 * k, '{"m11"}', 'FALSE', INV['C05'])
     cfg('LatticeMC_C06' + sx, G, T, Q4, Q3, BOTH, TT, '{0}', CUTS, 1, 6 * k, '{"m11", "m10", "m12"}', 'FALSE', INV['C06'])
@@ -53,3 +53,5 @@ for th in (False, True):
     cfg('LatticeMC_C19e' + sx, '{"line", "selfl", "dead"}' if not th else G, T, Q4, Q3, BOTH, BOTH, '{0, 2}', CUTS, 2, 1 * ke, '{"m11"}', 'TRUE', ['EmitBehaviour'], debugs='{TRUE}')
     cfg('LatticeMC_C10' + sx, G, T, Q4, Q3, BOTH, BOTH, '{0, 1, 2}', CUTS, 1, 4 * k, '{"m11", "m00"}', 'FALSE', ['C10order'])
     cfg('LatticeMC_ALLe' + sx, '{"line", "selfl", "dead"}' if not th else G, T, Q4, Q3, BOTH, BOTH, '{0, 1, 2}', '{"none", "dist", "prob"}', 3, 1 * ke, '{"m11"}', 'TRUE', ['EmitBehaviour'])
+    # histories in which the matcher object is reused for a fresh match() (replayed on the real matcher by C03)
+    cfg('LatticeMC_C03e' + sx, '{"line", "dead"}' if not th else '{"line", "dead", "selfl", "tri"}', T, Q4, Q3, BOTH, BOTH, '{0, 2}', '{"none", "dist"}', 3, 1 * ke, '{"m11"}', 'TRUE', ['EmitBehaviour'], reuse='TRUE')
